@@ -1725,6 +1725,9 @@ func (e *detEngine) run() {
 				if lenOneGuard(g, ins.Block(), x) {
 					continue // the slice is known to hold exactly one element here
 				}
+				if sl, ok := ins.(*ssa.Slice); ok && compactionCut(f, g, sl) {
+					continue // S = S[:j] closing an in-place filter that visited every element: the kept SET is order independent
+				}
 				why := ""
 				if m := localTaint[f]; m != nil {
 					why = m[g.find(x)]
@@ -1843,6 +1846,89 @@ func lenOneGuard(g *sliceGroups, b *ssa.BasicBlock, x ssa.Value) bool {
 		if bi, ok := lc.Call.Value.(*ssa.Builtin); ok && bi.Name() == "len" && g.find(lc.Call.Args[0]) == r {
 			return true
 		}
+	}
+	return false
+}
+
+// compactionCut: sl = X[:j] where j counts the elements that a complete range loop over X (exits only from its
+// header) stored back into X[j] — the in-place filter idiom
+func compactionCut(f *ssa.Function, g *sliceGroups, sl *ssa.Slice) bool {
+	if sl.High == nil || sl.Low != nil {
+		return false
+	}
+	loops := loopsOf(f)
+	root := g.find(sl.X)
+	fieldOfLoad := func(v ssa.Value) (*types.Var, ssa.Value) {
+		if ld, ok := v.(*ssa.UnOp); ok && ld.Op == token.MUL {
+			if fa, ok := ld.X.(*ssa.FieldAddr); ok {
+				return fieldOf(fa), fa.X
+			}
+		}
+		return nil, nil
+	}
+	sameVar := func(v ssa.Value) bool {
+		if g.find(v) == root {
+			return true
+		}
+		f1, b1 := fieldOfLoad(v)
+		f2, b2 := fieldOfLoad(sl.X)
+		return f1 != nil && f1 == f2 && b1 == b2
+	}
+	for h, body := range loops {
+		// counter: a header phi that reaches sl.High
+		var counter *ssa.Phi
+		for _, ins := range h.Instrs {
+			phi, ok := ins.(*ssa.Phi)
+			if !ok {
+				break
+			}
+			if ssa.Value(phi) == sl.High {
+				counter = phi
+			}
+		}
+		if counter == nil {
+			continue
+		}
+		// complete iteration: every exit edge leaves from the header
+		complete := true
+		for b := range body {
+			for _, s := range b.Succs {
+				if !body[s] && b != h {
+					complete = false
+				}
+			}
+		}
+		if !complete {
+			return false
+		}
+		// the header's exit test must be the exhaustion of a range over X (index < len), not an element predicate
+		rangesX, storesBack := false, false
+		for b := range body {
+			for _, ins := range b.Instrs {
+				switch x := ins.(type) {
+				case *ssa.IndexAddr:
+					if !sameVar(x.X) {
+						continue
+					}
+					if x.Index == ssa.Value(counter) {
+						if refs := x.Referrers(); refs != nil {
+							for _, u := range *refs {
+								if st, ok := u.(*ssa.Store); ok && st.Addr == ssa.Value(x) {
+									storesBack = true
+								}
+							}
+						}
+					} else if _, isPhi := x.Index.(*ssa.Phi); isPhi {
+						rangesX = true
+					} else if bo, ok := x.Index.(*ssa.BinOp); ok {
+						if p, ok := bo.X.(*ssa.Phi); ok && p.Block() == h {
+							rangesX = true
+						}
+					}
+				}
+			}
+		}
+		return rangesX && storesBack
 	}
 	return false
 }
